@@ -806,3 +806,47 @@ func spilledResult(r *ssa.Return, v ssa.Value) ssa.Value {
 	}
 	return v
 }
+
+// dependsOnCallUpDeep is dependsOnCallUp that also looks into the results of module functions at every level (a value
+// prepared by a small helper two frames up: `pwd := getCleanedPwd(); validateAll(pwd, outs)` → `validate(pwd, out)`).
+func dependsOnCallUpDeep(p *Prog, v ssa.Value, pred func(*ssa.CallCommon) bool, depth int) bool {
+	if dependsOnCall(v, pred) || dependsOnCallDeep(v, pred) {
+		return true
+	}
+	if depth == 0 {
+		return false
+	}
+	var params []*ssa.Parameter
+	sliceBack(v, func(x ssa.Value) bool {
+		if prm, ok := x.(*ssa.Parameter); ok {
+			params = append(params, prm)
+		}
+		return true
+	})
+	for _, prm := range params {
+		fn := prm.Parent()
+		if fn == nil || fn.Object() == nil || fn.Object().Exported() {
+			continue
+		}
+		idx := -1
+		for i, q := range fn.Params {
+			if q == prm {
+				idx = i
+			}
+		}
+		callers := p.callersIndex()[fn]
+		if idx < 0 || len(callers) == 0 {
+			continue
+		}
+		all := true
+		for _, cs := range callers {
+			if idx >= len(cs.Call.Args) || !dependsOnCallUpDeep(p, cs.Call.Args[idx], pred, depth-1) {
+				all = false
+			}
+		}
+		if all {
+			return true
+		}
+	}
+	return false
+}
